@@ -14,7 +14,9 @@ import (
 func TestMain(m *testing.M) { hx.Main(m) }
 
 const genRule = "histories of 5-36 steps (create of 1-3 shared templates, update of 1-3 register/counter fields incl. null, delete, " +
-	"deliver of ANY update notification produced so far - heads, old ancestors, duplicates, collection-level commits - to any node) over 2-4 in-process nodes, " +
+	"mirror = a node repeats the field writes of another node's latest update (identical field-level commits under different document commits), " +
+	"deliver of ANY update notification produced so far - heads, old ancestors, duplicates, collection-level commits - to any node) over 2-4 in-process nodes; " +
+	"four cases in ten with >=3 nodes start with a structured two-branch history (nodes 0 and 1 write concurrently incl. mirrored writes, one merges the other and writes on top, 1-2 rounds) whose latest commit is then delivered to a late joiner that merges the whole DAG at once, " +
 	"configuration drawn from {plain, branchable, indexed, unsigned / per-node or shared ed25519 / secp256k1 signer}, followed by anti-entropy of model frontiers until every node merged every commit; "
 
 var recC01 = hx.NewRecorder("C01", genRule+
@@ -201,6 +203,15 @@ func labelsOf(c Case, st simStats) []string {
 	add(st.ttMultiParent > 0, "time-travel-below-multi-parent-commit")
 	add(st.ttCounter > 0, "time-travel-with-counter")
 	add(st.ttRemote > 0, "time-travel-on-non-writer-node")
+	add(st.mirrors > 0, "mirrored-update(same-field-writes-on-two-nodes)")
+	add(st.sharedUpdateBlock, "field-block-of-an-update-produced-on-two-nodes")
+	add(st.lateJoin > 0, "late-joiner-merges-deep-dag-at-once")
+	add(st.lateJoinMerged > 0, "late-joiner-merges-two-branch-dag-at-once")
+	diamond := false
+	for _, s := range c.Steps {
+		diamond = diamond || s.Kind == "deliverfrom"
+	}
+	add(diamond, "shape:diamond-with-late-joiner")
 	return l
 }
 
